@@ -306,6 +306,83 @@ Section Analyser.
     add_set (snd lhs, fst lhs) ;;;
     mapM_ add_identifiers targets.
 
+  (* ---- the visitors, as functions of the (already built) visits of their sub-nodes ---- *)
+
+  (* visit_compound_name *)
+  Definition compound_body (n v : node) (c : ectx) (visit_v : M unit) : M unit :=
+    bf <- get_and_verify_name n c ;;
+    (if is_nameable v then ret tt else visit_v) ;;;
+    update_results (snd bf, fst bf) c.
+
+  (* visit_Call; visit_args = the visits of the positional and keyword arguments *)
+  Definition call_body (n : node) (args kws : list node) (visit_args : M unit) : M unit :=
+    bf0 <- lift_names (names_of true false n) ;;
+    let target_name := without_call_brackets (snd bf0) in
+    tsym <- call_target target_name ;;
+    match analyser_for tsym with
+    | AUnmodelled => unmodelled
+    | AAttr fn => attr_analyser fn target_name n
+    | ANone =>
+      bf <- get_and_verify_name n Load ;;
+      let fullname := snd bf in
+      target <- call_target fullname ;;
+      let self_name := match target with
+                       | Some (mkSym nm KClass) => Some (LITERAL_PREFIX ++ nm)%string
+                       | _ => None
+                       end in
+      mapM_ add_get (receiver_prefixes fullname) ;;;
+      cr <- make_call fullname args kws target self_name ;;
+      add_call cr ;;;
+      visit_args
+    end.
+
+  (* visit_AnyAssign (after the visit_NamedExpr prologue) *)
+  Definition assign_body (targets : list node) (value : option node)
+             (prologue class_branch generic : M unit) : M unit :=
+    prologue ;;;
+    if lambda_in_rhs value then
+      (* visit_LambdaAssign *)
+      if negb (one_to_one targets value) then fatal
+      else match targets with
+           | t :: _ => bf <- lift_names (names_of false true t) ;;
+                       mod_ctx (fun c => ctx_add c (mkSym (without_call_brackets (snd bf)) KFunc) false)
+           | [] => fatal
+           end
+    else
+      nt <- namedtuple_in_rhs value ;;
+      if nt then
+        (* visit_NamedTupleAssign *)
+        if negb (one_to_one targets value) then fatal
+        else match targets, value with
+             | t :: _, Some v =>
+               bf <- lift_names (names_of false true t) ;;
+               if namedtuple_declaration_ok v
+               then mod_ctx (fun c => ctx_add c (mkSym (without_call_brackets (snd bf)) KClass) false)
+               else ret tt
+             | _, _ => fatal
+             end
+      else
+        cl <- class_in_rhs value ;;
+        if cl then
+          (* visit_ClassAssign *)
+          if negb (one_to_one targets value) then fatal else class_branch
+        else
+          mapM_ add_identifiers targets ;;; generic.
+
+  (* the class-instantiation case of visit_ReturnValue *)
+  Definition retcall_body (n : node) (args kws : list node) (visit_args : M unit) : M bool :=
+    if existsb (is_call_to_fn n) ATTR_BUILTINS then ret false
+    else
+      bf <- lift_names (names_of true true n) ;;
+      target <- call_target (snd bf) ;;
+      if negb (is_class target) then ret false
+      else
+        cn <- lift_names (names_of false true n) ;;
+        init_body <- call_target (snd cn) ;;
+        cr <- make_call (snd cn) args kws init_body (Some "@ReturnValue") ;;
+        add_call cr ;;;
+        visit_args ;;; ret true.
+
   Fixpoint visit (n : node) {struct n} : M unit :=
     let vlist := fix vlist (l : list node) : M unit :=
                    match l with [] => ret tt | x :: r => visit x ;;; vlist r end in
@@ -315,98 +392,42 @@ Section Analyser.
     | EName _ c _ =>
       bf <- get_and_verify_name n c ;; update_results (snd bf, fst bf) c
     (* ---- visit_compound_name: Attribute / Subscript / Starred ---- *)
-    | EAttr v _ c _ | ESub v _ c _ | EStar v c _ =>
-      bf <- get_and_verify_name n c ;;
-      (if is_nameable v then ret tt else visit v) ;;;
-      update_results (snd bf, fst bf) c
+    | EAttr v _ c _ | ESub v _ c _ | EStar v c _ => compound_body n v c (visit v)
     (* ---- visit_Call ---- *)
-    | ECall _ args kws _ =>
-      bf0 <- lift_names (names_of true false n) ;;
-      let target_name := without_call_brackets (snd bf0) in
-      tsym <- call_target target_name ;;
-      match analyser_for tsym with
-      | AUnmodelled => unmodelled
-      | AAttr fn => attr_analyser fn target_name n
-      | ANone =>
-        bf <- get_and_verify_name n Load ;;
-        let fullname := snd bf in
-        target <- call_target fullname ;;
-        let self_name := match target with
-                         | Some (mkSym nm KClass) => Some (LITERAL_PREFIX ++ nm)%string
-                         | _ => None
-                         end in
-        mapM_ add_get (receiver_prefixes fullname) ;;;
-        cr <- make_call fullname args kws target self_name ;;
-        add_call cr ;;;
-        vlist args ;;; vlist kws
-      end
+    | ECall _ args kws _ => call_body n args kws (vlist args ;;; vlist kws)
     (* ---- assignments ---- *)
-    | SAssign _ _ _ | SAnnAssign _ _ _ _ | SAugAssign _ _ _ | ENamed _ _ _ =>
-      let targets := match n with
-                     | SAssign ts _ _ => ts
-                     | SAnnAssign t _ _ _ | SAugAssign t _ _ | ENamed t _ _ => [t]
-                     | _ => []
-                     end in
-      let value := match n with
-                   | SAssign _ v _ | SAugAssign _ v _ | ENamed _ v _ => Some v
-                   | SAnnAssign _ _ [v] _ => Some v
-                   | _ => None
-                   end in
-      (* visit_NamedExpr prologue *)
-      (match n with
-       | ENamed t v _ =>
-         bf <- lift_names (names_of false true t) ;;
-         add_set (fst bf, snd bf) ;;;      (* Name built from the unpacked names_of pair: name := base, basename := full *)
-         (if lambda_in_rhs (Some v) then visit v else ret tt)
-       | _ => ret tt
-       end) ;;;
-      if lambda_in_rhs value then
-        (* visit_LambdaAssign *)
-        if negb (one_to_one targets value) then fatal
-        else match targets with
-             | t :: _ => bf <- lift_names (names_of false true t) ;;
-                         mod_ctx (fun c => ctx_add c (mkSym (without_call_brackets (snd bf)) KFunc) false)
-             | [] => fatal
-             end
-      else
-        nt <- namedtuple_in_rhs value ;;
-        if nt then
-          (* visit_NamedTupleAssign *)
-          if negb (one_to_one targets value) then fatal
-          else match targets, value with
-               | t :: _, Some v =>
-                 bf <- lift_names (names_of false true t) ;;
-                 if namedtuple_declaration_ok v
-                 then mod_ctx (fun c => ctx_add c (mkSym (without_call_brackets (snd bf)) KClass) false)
-                 else ret tt
-               | _, _ => fatal
-               end
-        else
-          cl <- class_in_rhs value ;;
-          if cl then
-            (* visit_ClassAssign *)
-            if negb (one_to_one targets value) then fatal
-            else match n with
-                 | SAssign (t :: _) (ECall f a k p) _ =>
-                   class_assign_pre t f a k p targets ;;; vlist a ;;; vlist k
-                 | SAnnAssign t _ [ECall f a k p] _ =>
-                   class_assign_pre t f a k p targets ;;; vlist a ;;; vlist k
-                 | SAugAssign t (ECall f a k p) _ =>
-                   class_assign_pre t f a k p targets ;;; vlist a ;;; vlist k
-                 | ENamed t (ECall f a k p) _ =>
-                   class_assign_pre t f a k p targets ;;; vlist a ;;; vlist k
-                 | _ => raise "RuntimeError"
-                 end
-          else
-            mapM_ add_identifiers targets ;;;
-            (* generic_visit(node) *)
-            match n with
-            | SAssign ts v _ => vlist ts ;;; visit v
-            | SAnnAssign t a vs _ => visit t ;;; visit a ;;; vlist vs
-            | SAugAssign t v _ => visit t ;;; visit v
-            | ENamed t v _ => visit t ;;; visit v
-            | _ => ret tt
-            end
+    | SAssign ts v _ =>
+      assign_body ts (Some v) (ret tt)
+        (match ts, v with
+         | t :: _, ECall f a k p => class_assign_pre t f a k p ts ;;; vlist a ;;; vlist k
+         | _, _ => raise "RuntimeError"
+         end)
+        (vlist ts ;;; visit v)
+    | SAnnAssign t ann vs _ =>
+      assign_body [t] (match vs with [v] => Some v | _ => None end) (ret tt)
+        (match vs with
+         | [ECall f a k p] => class_assign_pre t f a k p [t] ;;; vlist a ;;; vlist k
+         | _ => raise "RuntimeError"
+         end)
+        (visit t ;;; visit ann ;;; vlist vs)
+    | SAugAssign t v _ =>
+      assign_body [t] (Some v) (ret tt)
+        (match v with
+         | ECall f a k p => class_assign_pre t f a k p [t] ;;; vlist a ;;; vlist k
+         | _ => raise "RuntimeError"
+         end)
+        (visit t ;;; visit v)
+    | ENamed t v _ =>
+      assign_body [t] (Some v)
+        (* visit_NamedExpr prologue; Name built from the unpacked names_of pair: name := base, basename := full *)
+        (bf <- lift_names (names_of false true t) ;;
+         add_set (fst bf, snd bf) ;;;
+         (if lambda_in_rhs (Some v) then visit v else ret tt))
+        (match v with
+         | ECall f a k p => class_assign_pre t f a k p [t] ;;; vlist a ;;; vlist k
+         | _ => raise "RuntimeError"
+         end)
+        (visit t ;;; visit v)
     (* ---- visit_Delete ---- *)
     | SDelete ts _ => mapM_ remove_identifiers ts ;;; vlist ts
     (* ---- visit_For / AsyncFor ---- *)
@@ -459,18 +480,7 @@ Section Analyser.
     match n with
     | ESeq _ es _ => rlist es ;;; ret true
     | EDict ks vs => rlist ks ;;; rlist vs ;;; ret true
-    | ECall _ args kws _ =>
-      if existsb (is_call_to_fn n) ATTR_BUILTINS then ret false
-      else
-        bf <- lift_names (names_of true true n) ;;
-        target <- call_target (snd bf) ;;
-        if negb (is_class target) then ret false
-        else
-          cn <- lift_names (names_of false true n) ;;
-          init_body <- call_target (snd cn) ;;
-          cr <- make_call (snd cn) args kws init_body (Some "@ReturnValue") ;;
-          add_call cr ;;;
-          vlist args ;;; vlist kws ;;; ret true
+    | ECall _ args kws _ => retcall_body n args kws (vlist args ;;; vlist kws)
     | _ => ret false
     end.
 
